@@ -52,7 +52,9 @@ def DeepOK (I : Interp Val) (Φ : FEnv Val) (α : List (String × AttrData)) (tb
   ∀ (Q : VId → Prop) (lo : Nat) (ns : List FNode) (st : ISt) (ρ : Env Val), WFBody tbl Q lo st.next ns →
     RelN st.next (deeper st ns).2.2 (evalNodesF I Φ α ns ρ) (evalNodesF I Φ α (deeper st ns).2.1 ρ) ∧
     st.next ≤ (deeper st ns).1.next ∧
-    (∀ p ∈ (deeper st ns).2.2, lo ≤ p.1 ∧ p.1 < st.next ∧ p.2 < (deeper st ns).1.next ∧ (Q p.2 ∨ lo ≤ p.2))
+    (∀ p ∈ (deeper st ns).2.2, lo ≤ p.1 ∧ p.1 < st.next ∧ p.2 < (deeper st ns).1.next ∧ (Q p.2 ∨ lo ≤ p.2)) ∧
+    closedNodes (eraseNodes (deeper st ns).2.1) = true ∧
+    (∀ v ∈ outsTop (eraseNodes ns), (deeper st ns).2.2.app v ∈ outsTop (eraseNodes (deeper st ns).2.1))
 
 theorem callOK_iff {f : Func} {attrs : List (String × FAttr)} {ins : List (Option VId)} {outs : List VId}
     {bodies : List FGraph} (h : callOK f attrs ins outs bodies = true) :
@@ -93,6 +95,56 @@ theorem mem_of_lookup_vid : ∀ {l : List (VId × VId)} {v u : VId}, l.lookup v 
       simp only [List.lookup_cons, this] at h
       exact List.mem_cons_of_mem _ (mem_of_lookup_vid h)
 
+/-- every value that replaces an output of an instantiated call is produced by one of the inserted nodes -/
+theorem outsTopF_eq : ∀ ns : List FNode, outsTopF ns = outsTop (eraseNodes ns)
+  | [] => by simp [outsTopF, outsTop]
+  | .mk op attrs ins outs bodies :: ns => by
+    simp only [outsTopF, FNode.outs, eraseNodes_cons, eraseN, outsTop, Node.outs, outsTopF_eq ns]
+
+theorem fwdOuts_outvals (vm : VMap) : ∀ (vs produced : List VId) (next : Nat),
+    ∀ w ∈ (fwdOuts vm produced vs next).outvals, w ∈ produced ∨ w ∈ outsTop (eraseNodes (fwdOuts vm produced vs next).nodes)
+  | [], _, _, w, h => by simp [fwdOuts] at h
+  | v :: vs, produced, next, w, h => by
+    rw [fwdOuts] at h ⊢
+    split at h
+    · rename_i w' hw'
+      split at h
+      · rename_i hc
+        simp only [hw', hc, if_true]
+        rcases List.mem_cons.1 h with h | h
+        · exact Or.inl (by rw [h]; simpa using hc)
+        · exact fwdOuts_outvals vm vs produced next w h
+      · rename_i hc
+        simp only [hw', hc, Bool.false_eq_true, if_false, eraseNodes_cons, eraseN, outsTop, Node.outs, List.mem_append,
+          List.mem_singleton]
+        rcases List.mem_cons.1 h with h | h
+        · exact Or.inr (Or.inl h)
+        · rcases fwdOuts_outvals vm vs (next :: produced) (next + 1) w h with h' | h'
+          · rcases List.mem_cons.1 h' with h' | h'
+            · exact Or.inr (Or.inl h')
+            · exact Or.inl h'
+          · exact Or.inr (Or.inr h')
+    · rename_i hw'
+      simp only [hw', eraseNodes_cons, eraseN, outsTop, Node.outs, List.mem_append, List.mem_singleton]
+      rcases List.mem_cons.1 h with h | h
+      · exact Or.inr (Or.inl h)
+      · exact (fwdOuts_outvals vm vs produced (next + 1) w h).imp id Or.inr
+
+theorem instantiate_outvals (f : Func) (cattrs : List (String × FAttr)) (cins : List (Option VId)) (next : Nat) :
+    ∀ w ∈ (instantiate f cattrs cins next).outvals, w ∈ outsTop (eraseNodes (instantiate f cattrs cins next).nodes) := by
+  intro w hw
+  simp only [instantiate] at hw ⊢
+  rw [eraseNodes_append, outsTop_append, List.mem_append]
+  rcases fwdOuts_outvals _ _ _ _ w hw with h | h
+  · exact Or.inl (outsTopF_eq _ ▸ h)
+  · exact Or.inr h
+
+theorem app_append_of_not_key {new σ : Subst} {v : VId} (h : ∀ p ∈ new, p.1 ≠ v) : (new ++ σ).app v = σ.app v := by
+  rw [Subst.app_append']
+  cases hl : new.lookup v with
+  | none => rfl
+  | some z => exact absurd rfl (h (v, z) (mem_of_lookup_vid hl))
+
 theorem mem_substIns {σ : Subst} {ins : List (Option VId)} {w : VId} (h : w ∈ (substIns σ ins).filterMap id) :
     ∃ v ∈ ins.filterMap id, w = σ.app v := by
   simp only [substIns, List.mem_filterMap, List.mem_map, id] at h
@@ -113,7 +165,8 @@ theorem inlG_sound (ht : TblOK I Φ tbl) (hd : DeepOK I Φ α tbl deeper) :
     RelN N σ ρo ρi → SubstOK σ (defsG (eraseG g)) → ssaG (eraseG g) = true → closedG (eraseG g) = true →
     noFwdG (eraseG g) = true → (∀ v ∈ refsG (eraseG g), v < N) → (∀ v ∈ defsG (eraseG g), v < N) →
     N ≤ st.next → (∀ p ∈ σ, p.2 < st.next) → callsOKG tbl g = true →
-    evalGF I Φ α g ρo = evalGF I Φ α (inlG tbl crit deeper st σ g).2 ρi ∧ st.next ≤ (inlG tbl crit deeper st σ g).1.next
+    evalGF I Φ α g ρo = evalGF I Φ α (inlG tbl crit deeper st σ g).2 ρi ∧ st.next ≤ (inlG tbl crit deeper st σ g).1.next ∧
+    closedG (eraseG (inlG tbl crit deeper st σ g).2) = true
   | .mk inputs outputs inits nodes, σ, st, ρo, ρi, hrel, hok, hs, hc, hf, hr, hdf, hN, hrg, hco => by
     simp only [eraseG, ssaG, Bool.and_eq_true] at hs
     simp only [eraseG, closedG, Bool.and_eq_true, List.all_eq_true] at hc
@@ -139,7 +192,7 @@ theorem inlG_sound (ht : TblOK I Φ tbl) (hd : DeepOK I Φ α tbl deeper) :
       inlNodes_sound ht hd nodes σ outputs st ρo' ρi' h hokn hs.2 hc.2 hf
         (fun v hv => hr v (Or.inr hv)) (fun v hv => hdf v (Or.inr hv)) hN hrg hco
     rw [hmap] at key
-    refine ⟨?_, ?_⟩
+    refine ⟨?_, ?_, ?_⟩
     · funext xs
       simp only [inlG, evalGF]
       have hrel1 : RelN N σ ((bindInits I ρo inits).bind
@@ -157,6 +210,24 @@ theorem inlG_sound (ht : TblOK I Φ tbl) (hd : DeepOK I Φ α tbl deeper) :
       exact k1 v (hr v (Or.inl hv))
     · simp only [inlG]
       exact (key ρo ρi hrel).2.2.1
+    · obtain ⟨_, k2, _, _, _, k6, k7, ⟨new, hnew, hkeys⟩⟩ := key ρo ρi hrel
+      simp only [inlG, eraseG, closedG, Bool.and_eq_true, List.all_eq_true, List.contains_eq_mem, decide_eq_true_eq]
+      refine ⟨?_, k6⟩
+      rw [k2]
+      intro o ho
+      obtain ⟨o0, ho0, rfl⟩ := List.mem_map.1 ho
+      have := hc.1 o0 ho0
+      simp only [List.contains_eq_mem, decide_eq_true_eq, List.mem_append] at this ⊢
+      rcases this with (h | h) | h
+      · left
+        rw [hnew, app_append_of_not_key (fun p hp e => (disj_iff.1 hs.1.2 o0 (by simp [h])) (by rw [← e]; exact hkeys p hp)),
+          hok.app_of_mem (by simp only [defsG, List.mem_append]; exact Or.inl (Or.inl h))]
+        exact Or.inl h
+      · left
+        rw [hnew, app_append_of_not_key (fun p hp e => (disj_iff.1 hs.1.2 o0 (by simp [h])) (by rw [← e]; exact hkeys p hp)),
+          hok.app_of_mem (by simp only [defsG, List.mem_append]; exact Or.inl (Or.inr h))]
+        exact Or.inr h
+      · exact Or.inr (k7 o0 h)
 theorem inlNodes_sound (ht : TblOK I Φ tbl) (hd : DeepOK I Φ α tbl deeper) :
     ∀ (ns : List FNode) (σ : Subst) (outs0 : List VId) (st : ISt) (ρo ρi : Env Val),
     RelN N σ ρo ρi → SubstOK σ (defsNodes (eraseNodes ns)) → ssaNodes (eraseNodes ns) = true →
@@ -171,10 +242,16 @@ theorem inlNodes_sound (ht : TblOK I Φ tbl) (hd : DeepOK I Φ α tbl deeper) :
     (∀ p ∈ (inlNodes tbl crit deeper st σ (outs0.map σ.app) ns).σ,
       p.2 < (inlNodes tbl crit deeper st σ (outs0.map σ.app) ns).st.next) ∧
     (∀ p ∈ (inlNodes tbl crit deeper st σ (outs0.map σ.app) ns).σ, p ∈ σ ∨
-      (p.1 ∈ defsNodes (eraseNodes ns) ∧ (st.next ≤ p.2 ∨ ∃ v ∈ refsNodes (eraseNodes ns), p.2 = σ.app v)))
+      (p.1 ∈ defsNodes (eraseNodes ns) ∧ (st.next ≤ p.2 ∨ ∃ v ∈ refsNodes (eraseNodes ns), p.2 = σ.app v))) ∧
+    closedNodes (eraseNodes (inlNodes tbl crit deeper st σ (outs0.map σ.app) ns).nodes) = true ∧
+    (∀ v ∈ outsTop (eraseNodes ns), (inlNodes tbl crit deeper st σ (outs0.map σ.app) ns).σ.app v ∈
+      outsTop (eraseNodes (inlNodes tbl crit deeper st σ (outs0.map σ.app) ns).nodes)) ∧
+    (∃ new, (inlNodes tbl crit deeper st σ (outs0.map σ.app) ns).σ = new ++ σ ∧
+      ∀ p ∈ new, p.1 ∈ defsNodes (eraseNodes ns))
   | [], σ, outs0, st, ρo, ρi, hrel, _, _, _, _, _, _, _, hrg, _ => by
     simp only [inlNodes, evalNodesF]
-    exact ⟨hrel, trivial, Nat.le_refl _, hrg, fun p hp => Or.inl hp⟩
+    exact ⟨hrel, trivial, Nat.le_refl _, hrg, fun p hp => Or.inl hp, rfl, fun v hv => by simp [outsTop] at hv,
+      [], rfl, fun p hp => by simp at hp⟩
   | .mk op attrs ins nouts bodies :: ns, σ, outs0, st, ρo, ρi, hrel, hok, hs, hc, hf, hr, hdf, hN, hrg, hco => by
     simp only [eraseNodes_cons, eraseN, ssaNodes, ssaN, Bool.and_eq_true, disj_iff] at hs
     simp only [eraseNodes_cons, eraseN, closedNodes, closedN, Bool.and_eq_true] at hc
@@ -226,9 +303,11 @@ theorem inlNodes_sound (ht : TblOK I Φ tbl) (hd : DeepOK I Φ α tbl deeper) :
       rw [← hinst] at is1 is2 is3 is4 hwf ⊢
       obtain ⟨dd, hdd⟩ : ∃ x, x = deeper (st.addInlined op inst.next inst.bad) inst.nodes := ⟨_, rfl⟩
       have hdst : (st.addInlined op inst.next inst.bad).next = inst.next := rfl
-      obtain ⟨d1, d2, d3⟩ := hd (· ∈ (substIns σ ins).filterMap id) st.next inst.nodes
+      have hov := instantiate_outvals f attrs (substIns σ ins) st.next
+      rw [← hinst] at hov
+      obtain ⟨d1, d2, d3, d4, d5⟩ := hd (· ∈ (substIns σ ins).filterMap id) st.next inst.nodes
         (st.addInlined op inst.next inst.bad) ρi (by rw [hdst]; exact hwf)
-      rw [← hdd] at d1 d2 d3 ⊢
+      rw [← hdd] at d1 d2 d3 d4 d5 ⊢
       rw [hdst] at d1 d2 d3
       have hlen' : nouts.length ≤ (inst.outvals.map dd.2.2.app).length := by
         rw [List.length_map, hinst]
@@ -305,10 +384,32 @@ theorem inlNodes_sound (ht : TblOK I Φ tbl) (hd : DeepOK I Φ α tbl deeper) :
         · obtain ⟨w, hw, hw2⟩ := List.mem_map.1 (List.of_mem_zip hp).2
           rw [← hw2]; exact (hval w hw).1
         · exact Nat.lt_of_lt_of_le (hrg p hp) (Nat.le_trans is3 d2)
-      obtain ⟨k1, k2, k3, k4, k5⟩ := inlNodes_sound ht hd ns _ outs0 _ _ _ hrel1 hok1 hsn hc.2 hfn
+      obtain ⟨k1, k2, k3, k4, k5, k6, k7, ⟨new, hnew, hkeys⟩⟩ := inlNodes_sound ht hd ns _ outs0 _ _ _ hrel1 hok1 hsn hc.2 hfn
         (fun v hv => hr v (Or.inr hv)) (fun v hv => hdf v (Or.inr hv)) hN1 hrg1 hco.2
       simp only [evalNodesF, evalNodesF_append]
-      refine ⟨k1, k2, Nat.le_trans (Nat.le_trans is3 d2) k3, k4, ?_⟩
+      refine ⟨k1, k2, Nat.le_trans (Nat.le_trans is3 d2) k3, k4, ?_, ?_, ?_, ?_⟩
+      rotate_left
+      · rw [eraseNodes_append, closedNodes_append, d4, k6]; rfl
+      · intro v hv
+        rw [eraseNodes_append, outsTop_append, List.mem_append]
+        simp only [eraseNodes_cons, eraseN, outsTop, Node.outs, List.mem_append] at hv
+        rcases hv with hv | hv
+        · left
+          have hvn : v ∉ defsNodes (eraseNodes ns) := fun h => hdn v (by simp only [defsN, List.mem_append]; exact Or.inl hv) h
+          rw [hnew, app_append_of_not_key (fun p hp e => hvn (by rw [← e]; exact hkeys p hp)), Subst.app_append']
+          have hi := List.idxOf_lt_length_of_mem hv
+          rw [lookup_zip_mem nouts _ v hv hlen']
+          have hi' : nouts.idxOf v < inst.outvals.length := by
+            have := Nat.lt_of_lt_of_le hi hlen'
+            rwa [List.length_map] at this
+          simp only [List.getElem?_map, List.getElem?_eq_getElem hi', Option.map_some]
+          exact d5 _ (hov _ (List.getElem_mem hi'))
+        · exact Or.inr (k7 v hv)
+      · exact ⟨new ++ nouts.zip (inst.outvals.map dd.2.2.app), by rw [hnew, List.append_assoc], fun p hp => by
+          simp only [eraseNodes_cons, eraseN, defsNodes, defsN, List.mem_append]
+          rcases List.mem_append.1 hp with hp | hp
+          · exact Or.inr (hkeys p hp)
+          · exact Or.inl (Or.inl (List.of_mem_zip hp).1)⟩
       -- where the replacements come from
       have hpair : ∀ p ∈ nouts.zip (inst.outvals.map dd.2.2.app), p.1 ∈ nouts ∧
           (st.next ≤ p.2 ∨ ∃ v ∈ ins.filterMap id, p.2 = σ.app v) := by
@@ -353,17 +454,30 @@ theorem inlNodes_sound (ht : TblOK I Φ tbl) (hd : DeepOK I Φ α tbl deeper) :
         simp only [evalNF]
         rw [hargs, hb.1]
         exact RelN.bind hrel hoko _
-      obtain ⟨k1, k2, k3, k4, k5⟩ := inlNodes_sound ht hd ns σ outs0 (inlBodies tbl crit deeper st σ bodies).1 _ _ keep hokn
-        hsn hc.2 hfn (fun v hv => hr v (Or.inr hv)) (fun v hv => hdf v (Or.inr hv)) (Nat.le_trans hN hb.2)
-        (fun p hp => Nat.lt_of_lt_of_le (hrg p hp) hb.2) hco.2
+      obtain ⟨k1, k2, k3, k4, k5, k6, k7, ⟨new, hnew, hkeys⟩⟩ := inlNodes_sound ht hd ns σ outs0 (inlBodies tbl crit deeper st σ bodies).1 _ _ keep hokn
+        hsn hc.2 hfn (fun v hv => hr v (Or.inr hv)) (fun v hv => hdf v (Or.inr hv)) (Nat.le_trans hN hb.2.1)
+        (fun p hp => Nat.lt_of_lt_of_le (hrg p hp) hb.2.1) hco.2
       simp only [evalNodesF]
-      refine ⟨k1, k2, Nat.le_trans hb.2 k3, k4, ?_⟩
+      refine ⟨k1, k2, Nat.le_trans hb.2.1 k3, k4, ?_, ?_, ?_, ?_⟩
+      rotate_left
+      · simp only [eraseNodes_cons, eraseN, closedNodes, closedN, Bool.and_eq_true]
+        exact ⟨hb.2.2, k6⟩
+      · intro v hv
+        simp only [eraseNodes_cons, eraseN, outsTop, Node.outs, List.mem_append] at hv ⊢
+        rcases hv with hv | hv
+        · left
+          have hvn : v ∉ defsNodes (eraseNodes ns) := fun h => hdn v (by simp only [defsN, List.mem_append]; exact Or.inl hv) h
+          rw [hnew, app_append_of_not_key (fun p hp e => hvn (by rw [← e]; exact hkeys p hp)), hoko.app_of_mem hv]
+          exact hv
+        · exact Or.inr (k7 v hv)
+      · exact ⟨new, hnew, fun p hp => by
+          simp only [eraseNodes_cons, defsNodes, List.mem_append]; exact Or.inr (hkeys p hp)⟩
       intro p hp
       rcases k5 p hp with h | ⟨h1, h2⟩
       · exact Or.inl h
       · refine Or.inr ⟨by simp only [eraseNodes_cons, defsNodes, List.mem_append]; exact Or.inr h1, ?_⟩
         rcases h2 with h2 | ⟨v, hv, h2⟩
-        · exact Or.inl (Nat.le_trans hb.2 h2)
+        · exact Or.inl (Nat.le_trans hb.2.1 h2)
         · exact Or.inr ⟨v, by simp only [eraseNodes_cons, refsNodes, List.mem_append]; exact Or.inr hv, h2⟩
 theorem inlBodies_sound (ht : TblOK I Φ tbl) (hd : DeepOK I Φ α tbl deeper) :
     ∀ (bs : List FGraph) (σ : Subst) (st : ISt) (ρo ρi : Env Val),
@@ -372,8 +486,9 @@ theorem inlBodies_sound (ht : TblOK I Φ tbl) (hd : DeepOK I Φ α tbl deeper) :
     (∀ v ∈ refsBodies (eraseBodies bs), v < N) → (∀ v ∈ defsBodies (eraseBodies bs), v < N) →
     N ≤ st.next → (∀ p ∈ σ, p.2 < st.next) → callsOKBodies tbl bs = true →
     evalBodiesF I Φ α bs ρo = evalBodiesF I Φ α (inlBodies tbl crit deeper st σ bs).2 ρi ∧
-    st.next ≤ (inlBodies tbl crit deeper st σ bs).1.next
-  | [], _, _, _, _, _, _, _, _, _, _, _, _, _, _ => by simp [inlBodies, evalBodiesF]
+    st.next ≤ (inlBodies tbl crit deeper st σ bs).1.next ∧
+    closedBodies (eraseBodies (inlBodies tbl crit deeper st σ bs).2) = true
+  | [], _, _, _, _, _, _, _, _, _, _, _, _, _, _ => by simp [inlBodies, evalBodiesF, closedBodies]
   | b :: bs, σ, st, ρo, ρi, hrel, hok, hs, hc, hf, hr, hdf, hN, hrg, hco => by
     simp only [eraseBodies_cons, ssaBodies, Bool.and_eq_true] at hs
     simp only [eraseBodies_cons, closedBodies, Bool.and_eq_true] at hc
@@ -381,15 +496,15 @@ theorem inlBodies_sound (ht : TblOK I Φ tbl) (hd : DeepOK I Φ α tbl deeper) :
     simp only [eraseBodies_cons, refsBodies, List.mem_append] at hr
     simp only [eraseBodies_cons, defsBodies, List.mem_append] at hdf hok
     simp only [callsOKBodies, Bool.and_eq_true] at hco
-    obtain ⟨h1, h2⟩ := inlG_sound ht hd b σ st ρo ρi hrel
+    obtain ⟨h1, h2, h3⟩ := inlG_sound ht hd b σ st ρo ρi hrel
       (hok.mono (fun v hv => by simp only [defsBodies, List.mem_append]; exact Or.inl hv))
       hs.1.1 hc.1 hf.1 (fun v hv => hr v (Or.inl hv)) (fun v hv => hdf v (Or.inl hv)) hN hrg hco.1
-    obtain ⟨k1, k2⟩ := inlBodies_sound ht hd bs σ (inlG tbl crit deeper st σ b).1 ρo ρi hrel
+    obtain ⟨k1, k2, k3⟩ := inlBodies_sound ht hd bs σ (inlG tbl crit deeper st σ b).1 ρo ρi hrel
       (hok.mono (fun v hv => by simp only [defsBodies, List.mem_append]; exact Or.inr hv))
       hs.2 hc.2 hf.2 (fun v hv => hr v (Or.inr hv)) (fun v hv => hdf v (Or.inr hv)) (Nat.le_trans hN h2)
       (fun p hp => Nat.lt_of_lt_of_le (hrg p hp) h2) hco.2
-    simp only [inlBodies, evalBodiesF]
-    exact ⟨by rw [h1, k1], Nat.le_trans h2 k2⟩
+    simp only [inlBodies, evalBodiesF, eraseBodies_cons, closedBodies, Bool.and_eq_true]
+    exact ⟨by rw [h1, k1], Nat.le_trans h2 k2, h3, k3⟩
 end
 
 end
